@@ -95,6 +95,12 @@ def mk_app(fn, args=(), kw=()):
             i = const_of(idx)
             if isinstance(i, int) and -len(base.items) <= i < len(base.items):
                 return base.items[i]
+    if fn == "ite" and len(args) == 3:
+        c, a, b = args
+        if isinstance(c, Const):
+            return a if c.value else b
+        if a == b:
+            return a
     if fn == "where" and len(args) == 3:
         c, a, b = args
         if isinstance(c, Const):
